@@ -260,7 +260,7 @@ def failAll (fs : List FutRec) (wids : List Nat) (e : Exc) : List FutRec :=
 
 /-- Every pending work item's future gets the exception `e`; `pending_work_items.clear()`. -/
 def failPending (s : State) (e : Exc) : State :=
-  { s with futures := failAll s.futures (s.pending_work_items.filter (fun w => !s.running_work_items.contains w)) e, pending_work_items := [] }
+  { s with futures := failAll s.futures s.pending_work_items e, pending_work_items := [] }
 
 /-- `flag_as_broken(bpe)`. -/
 def flagAsBroken (s : State) (bpe : Exc) : State :=
